@@ -365,6 +365,10 @@ class KeyExchange(object):
                                     server_random=serverRandom,
                                     output_length=48)
             verifyBytes = handshakeHashes.digestSSL(masterSecret, b"")
+            # RFC 6101, section 5.6.8: only RSA signs md5_hash + sha_hash,
+            # DSA signs the sha_hash alone
+            if key_type == "dsa":
+                verifyBytes = verifyBytes[16:]
         elif version in ((3, 1), (3, 2)):
             # RFC 4346, section 7.4.8: only RSA signs the MD5+SHA-1
             # concatenation, DSA (like ECDSA) signs the SHA-1 hash alone
